@@ -908,7 +908,7 @@ class _Raw:
 PURE_CHAIN_CALLS = ("core::ops::try_trait::Try::branch", "core::ops::try_trait::FromResidual::from_residual")
 
 
-def thread_known_switches(bodies, max_chain=5, max_rounds=6):
+def thread_known_switches(bodies, max_chain=12, max_rounds=6):
     """Tail duplication driven by constant tracking.  When the statements of a block P decide a switch a few
     blocks further on (`form = Short(..)` in P, `match form` after the merge), the straight-line blocks between
     P and that switch are copied for P and the copy jumps straight to the decided arm:
